@@ -124,7 +124,7 @@ func (t *Text) findContainerSize(ctx vxfw.DrawContext) vxfw.Size {
 	if t.Softwrap {
 		scanner := NewSoftwrapScanner(t.Content, ctx.Max.Width)
 		for scanner.Scan(ctx) {
-			if size.Height > ctx.Max.Height {
+			if size.Height >= ctx.Max.Height {
 				return size
 			}
 			size.Height += 1
@@ -145,7 +145,7 @@ func (t *Text) findContainerSize(ctx vxfw.DrawContext) vxfw.Size {
 	}
 	scanner := bufio.NewScanner(strings.NewReader(t.Content))
 	for scanner.Scan() {
-		if size.Height > ctx.Max.Height {
+		if size.Height >= ctx.Max.Height {
 			return size
 		}
 		size.Height += 1
